@@ -52,3 +52,16 @@ Example layout_example :
      = Some (KFloat32, {| a_sym := "s_c_2_y_imag"; a_disp := 56; a_base := BFP |}).
 Proof. repeat split; vm_compute; reflexivity. Qed.
 Print Assumptions layout_example.
+
+(* every frame-pointer-relative address that a chain of component steps resolves to (any nesting of
+   string/slice header parts, complex parts, array elements and struct fields; no pointer
+   dereference) is an entry (symbol name, offset, size) of go vet's asmdecl flattening of the
+   argument it starts from: the specification the checks evaluate on avo's own output (sig_impl_ok)
+   is met by the model for every type and every path *)
+From Avo Require Import Proofs.FlattenProofs.
+Theorem component_matches_flatten : forall name off t p k a,
+  name <> EmptyString -> forallb nonderef p = true ->
+  resolve (apply_path true (param_comp name off t) p) = Some (k, a) ->
+  a_base a = BFP /\ In (a_sym a, a_disp a, kind_size k) (flatten name off t).
+Proof. exact resolved_component_matches_flatten_lemma. Qed.
+Print Assumptions component_matches_flatten.
